@@ -47,6 +47,11 @@ theorem isTime_fromNow_t32_at (t1 ms : Nat) (hs : (t1 + ms) % M32 ≠ M32 - 1) :
   simp only [Bool.and_eq_true, bne_iff_ne, ne_eq, decide_eq_true_eq]
   refine ⟨by omega, by omega⟩
 
+/-- a message time less than 100 ms in the past has not "elapsed" for the 100 ms slot timeout -/
+theorem fresh_not_elapsed (t d : Nat) (hd : d < 100) : hasElapsed (millis32 t) 100 (millis32 (t + d)) = false := by
+  unfold hasElapsed millis32 sub32 M32 INT32_MAX
+  exact decide_eq_false (by omega)
+
 theorem disabled_not_time (f : Flavor) (t : Nat) (h : t < M64 - 1) : (Sched.disabled f).isTime f t = false := by
   cases f
   · simp [Sched.disabled, Sched.isTime, disabledVal]
